@@ -60,7 +60,7 @@ struct P<'a> {
     s: &'a str,
     i: usize,
     /// general entities declared in the DOCTYPE's internal subset: references to them are well-formed; they are
-    /// not expanded but kept as the opaque text "&name;" in the infoset
+    /// not expanded but kept as an opaque marker (private-use characters around the name) in the infoset
     entities: Vec<String>,
 }
 
@@ -172,7 +172,8 @@ impl<'a> P<'a> {
             "gt" => Ok(">".into()),
             "quot" => Ok("\"".into()),
             "apos" => Ok("'".into()),
-            _ if self.entities.iter().any(|e| e == &n) => Ok(format!("&{n};")),
+            // (kept apart from the literal text "&name;", which is what a wrongly escaped reference turns into)
+            _ if self.entities.iter().any(|e| e == &n) => Ok(format!("\u{e000}entity:{n}\u{e001}")),
             _ => self.err(format!("undefined entity '{n}'")),
         }
     }
